@@ -85,7 +85,13 @@ Fixpoint set_nth_o (l : list (option N)) (i : nat) (x : option N) : list (option
   | h :: t, Datatypes.S j => h :: set_nth_o t j x
   end.
 Definition expect_store (ops : list pop) (st : list (option N)) : list (option N) :=
-  fold_left (fun st o => match o with Put k v => set_nth_o st (N.to_nat k) (Some v) | Del k => set_nth_o st (N.to_nat k) None end) ops st.
+  fold_left (fun st o => match o with
+                         | Put k v => set_nth_o st (N.to_nat k) (Some v)
+                         | Del k => set_nth_o st (N.to_nat k) None
+                         | Cas k e v => match nth (N.to_nat k) st None with
+                                        | Some x => if N.eqb x e then set_nth_o st (N.to_nat k) (Some v) else st
+                                        | None => st end
+                         end) ops st.
 
 Definition upd (o : ost) net' dec' cast' app' disc' dirty' known' : ost := OS net' (o_reg o) dec' cast' app' disc' dirty' known' (o_now o) (o_yes o) (o_illegit o) (o_swept o).
 Definition with_dec (o : ost) net' dec' : ost := upd o net' dec' (o_cast o) (o_applied o) (o_discarded o) (o_dirty o) (o_known o).
@@ -177,6 +183,9 @@ Definition ostep (ptmos : list N) (o : ost) (e : ev) (ret : list N) (pre post : 
               if negb (loN_eqb (pd_store (nth_pd pre sh)) (pd_store (nth_pd post sh))) then None
               else match ret with
                    | [0; h] =>
+                       (* a shard that has applied the transaction, or has been told to abort it, is finished with it: a
+                          (late or duplicated) Prepare must not prepare it again *)
+                       if pair_mem (tx, sh) (o_applied o) || pair_mem (tx, sh) (o_discarded o) then None else
                        (* a participant answers Yes only if no OTHER transaction holds a live lock on one of the keys *)
                        if existsb (fun k => match nth (N.to_nat k) (pd_holders (nth_pd pre sh)) None with
                                             | Some t => negb (N.eqb t tx) | None => false end) (map pop_key ops) then None else
@@ -225,7 +234,8 @@ Definition ostep (ptmos : list N) (o : ost) (e : ev) (ret : list N) (pre post : 
               (* a discarded transaction must not have been applied anywhere *)
               if had && existsb (fun y => N.eqb tx (fst y)) (o_applied o) then None
               else if same then
-                Some (upd o net0 (o_dec o) (o_cast o) (o_applied o) (if had then (tx, sh) :: o_discarded o else o_discarded o)
+                (* booked whether or not the shard held the transaction: it has been told to abort *)
+                Some (upd o net0 (o_dec o) (o_cast o) (o_applied o) ((tx, sh) :: o_discarded o)
                           (pair_del (tx, sh) (o_dirty o)) (o_known o))
               (* an abort must leave the shard's data exactly as it was; known class: another tx committed on the key in between *)
               else if had && pair_mem (tx, sh) (o_dirty o) && negb (pair_mem (tx, sh) (o_illegit o)) then
